@@ -640,7 +640,7 @@ class Dataset(AbstractDataset, dict, OpMixin, GetSetDelAttrMixin):
         pos, name = self._get_axis_info(axis)
         if keepdims:
             if newaxis is None:
-                newaxis = Axis(func(self.axes[name].values, axis=0, **kwargs), name)
+                newaxis = Axis(func(self.axes[name].values, axis=0, **kwargs), name, tol=self.axes[name].tol)
                 if keepattrs:
                     newaxis.attrs.update(self.axes[name].attrs) # like DimArray.take_axis
             newaxes = [ax.copy() if ax.name != name else newaxis for ax in self.axes]
